@@ -709,6 +709,8 @@ def snapshot(x):
         return ("l", [snapshot(y) for y in x])
     if isinstance(x, dict):
         return ("d", [(snapshot(k), snapshot(v)) for k, v in x.items()])
+    if isinstance(x, (set, frozenset)):
+        return ("s", sorted(repr(snapshot(y)) for y in x))
     if isinstance(x, (int, str, bool, type(None))):
         return ("v", x)
     d = getattr(x, "__dict__", None)
@@ -885,7 +887,7 @@ def probe_default_by_calls(f, owner, default_obj):
 
 def probe_param_by_calls(f, owner, param):
     """call f with objects that can be modified in the place of `param`: they must look the same afterwards"""
-    values = [[0, 1], bytearray(b"\x01" * 16), bytearray(b"\x01" * 32), {1: 2}, [b"\x01"]]
+    values = [[0, 1], bytearray(b"\x01" * 16), bytearray(b"\x01" * 32), {1: 2}, [b"\x01"], {1, 2}, {(0, None)}]
     tried = 0
     for call, args, text, _recv in call_variants(f, owner, focus=param, focus_values=values):
         before = [snapshot(a) for a in args]
